@@ -1,6 +1,6 @@
 package main
 
-// Ripple side of the corpus: a 2-of-3 multi-signing account. The raw payment is produced by the real
+// Ripple side of the corpus: a 3-of-4 multi-signing account. The raw payment is produced by the real
 // ripple.MakeTransaction (vote-router import released towards the ripple chain); the signer entries are real
 // multi-signatures over it (rubblelabs/ripple data.MultiSign), submitted through MultiSignRipple one signer at a time.
 
@@ -37,7 +37,7 @@ type rippleEnv struct {
 
 func newRippleEnv() *rippleEnv {
 	e := &rippleEnv{operator: polyenv.Key(901)}
-	for i := 0; i < 3; i++ {
+	for i := 0; i < 4; i++ {
 		key, err := rcrypto.NewECDSAKey(sha(fmt.Sprintf("c16-ripple-signer-%d", i))[:16])
 		if err != nil {
 			panic(err)
@@ -58,7 +58,7 @@ func newRippleEnv() *rippleEnv {
 }
 
 func (e *rippleEnv) extraInfo() []byte {
-	x := &side_chain_manager.RippleExtraInfo{Operator: e.operator.Addr, Sequence: 1, Quorum: 2, SignerNum: 3, Pks: e.pks, ReserveAmount: big.NewInt(1)}
+	x := &side_chain_manager.RippleExtraInfo{Operator: e.operator.Addr, Sequence: 1, Quorum: 3, SignerNum: 4, Pks: e.pks, ReserveAmount: big.NewInt(1)}
 	s := common.NewZeroCopySink(nil)
 	x.Serialization(s)
 	return s.Bytes()
